@@ -448,7 +448,7 @@ def marker_provenance(ctx, rule):
             ok = False
             for bi, si, st in b.iter_stmts():
                 if st["k"] == "assign" and st["place"]["p"] and not b.blocks[bi]["cleanup"]:
-                    pth = U.field_path(sy.place(st["place"]))
+                    pth = U.field_path(sy.dest(st["place"]))
                     if pth and pth[2] == ["dividers"]:
                         e = S.strip_refs(sy.rvalue(st["rv"]))
                         if e[0] == "agg" and len(e[3]) == 2:
